@@ -258,8 +258,22 @@ def lemma_transport(ctx, table):
 def _rand_tree(rng, depth, big):
     """Random tree as JSON-able dict; counts may be huge (Python ints)."""
     if depth == 0 or rng.random() < 0.2:
+        if rng.random() < 0.08:      # a large literal set (17..40 elements)
+            return {"op": "leaf", "s": sorted(rng.sample(range(0, 160), rng.randrange(17, 41)))}
         n = rng.choice([1, 1, 2, 2, 3])
         return {"op": "leaf", "s": sorted(rng.sample(range(0, 20), n))}
+    if rng.random() < 0.06:
+        # a union (or concatenation) of two large literal sets of equal size that agree in their smallest and largest
+        # elements and differ only in the middle: anything that identifies operands by an abbreviation conflates them
+        n = rng.randrange(18, 41)
+        a = sorted(rng.sample(range(0, 200), n))
+        b = list(a)
+        for j in rng.sample(range(8, n - 8), rng.randrange(1, max(2, (n - 16) // 2 + 1))):
+            cand = [x for x in range(a[7] + 1, a[n - 8]) if x not in b]
+            if cand:
+                b[j] = rng.choice(cand)
+        b = sorted(set(b))
+        return {"op": rng.choice(["uni", "uni", "cat"]), "ch": [{"op": "leaf", "s": a}, {"op": "leaf", "s": b}]}
     op = rng.choice(["pad", "rep", "rng", "cat", "uni", "rep", "rng"])
     if op == "pad":
         return {"op": "pad", "c": _rand_tree(rng, depth - 1, big), "r": rng.choice([1, 2, 3, 4, 8, 8, 16])}
